@@ -457,6 +457,26 @@ int isatty(int fd) {
     int (*real)(int) = REAL("isatty");
     return real ? real(fd) : 0;
 }
+mode_t umask(mode_t m) {
+    init();
+    if (g_in_expansion) note_fs("call:umask");
+    mode_t real_old = (mode_t)syscall(SYS_umask, m);
+    /* what a host's umask "was" follows its uid seam */
+    if (g_in_expansion && g_have_uid) return (g_uid % 2) ? 0077 : 0022;
+    return real_old;
+}
+#include <sys/resource.h>
+int getrlimit(__rlimit_resource_t res, struct rlimit *rl) {
+    init();
+    if (g_in_expansion) note_fs("call:getrlimit");
+    int r = (int)syscall(SYS_prlimit64, 0, res, NULL, rl);
+    if (r == 0 && g_in_expansion && g_have_ncpu && rl) {
+        /* resource limits of a simulated host follow its machine-size seam */
+        if (res == RLIMIT_NOFILE) rl->rlim_cur = 256 * (rlim_t)g_ncpu;
+        if (res == RLIMIT_STACK && rl->rlim_cur != RLIM_INFINITY) rl->rlim_cur = (rlim_t)(1 + g_ncpu % 8) << 20;
+    }
+    return r;
+}
 int sched_getaffinity(pid_t pid, size_t sz, cpu_set_t *set) {
     init();
     if (g_in_expansion) note_fs("call:sched_getaffinity");
